@@ -18,7 +18,9 @@ import time
 VERIF = os.path.dirname(os.path.dirname(os.path.abspath(__file__)))
 REPO = os.environ.get("VERIF_REPO", "/repo")
 CONTRACTS = os.path.join(VERIF, "contracts")
-CACHE = os.path.join(VERIF, ".cache")
+CACHE = os.environ.get("VERIF_CACHE") or os.path.join(VERIF, ".cache")
+REPLAYS = os.environ.get("VERIF_REPLAYS") or os.path.join(VERIF, "replays")
+EVIDENCE = os.environ.get("VERIF_EVIDENCE") or os.path.join(VERIF, "evidence")
 sys.path.insert(0, os.path.join(VERIF, "tools"))
 import extract  # noqa: E402
 from rstok import ExtractError  # noqa: E402
@@ -134,6 +136,17 @@ def map_diags(meta, diags, woven_name):
             lemma.append("%s @%d" % (msg, L))
             continue
         fpath = f[0]["path"]
+        # 0. "invariant/postcondition not satisfied" reported at a `continue`, `break`, `return` or loop entry:
+        #    the primary span is exec text, the failed clause is a secondary span labelled "failed this ..."
+        direct = []
+        for s in sec:
+            lab = (s.get("label") or "").lower()
+            if "failed this" in lab and ("invariant" in lab or "postcondition" in lab):
+                direct += [o for o in obs_at(s["line_start"]) if o["kind"] not in ("site", "loop-header", "requires")]
+        if direct:
+            for o in direct:
+                add(o["id"] if o["tags"] else "%s/hints" % fpath, rendered)
+            continue
         # 1. the primary span is a registered clause / tagged hint (failed ensures, invariant, hint)
         direct = [o for o in obs_at(L) if o["kind"] not in ("site", "loop-header")]
         if not direct:
@@ -141,7 +154,8 @@ def map_diags(meta, diags, woven_name):
         # "postcondition not satisfied": primary is the ensures clause; "invariant not satisfied": the clause
         if direct:
             for o in direct:
-                add(o["id"], rendered)
+                # an untagged clause (frame, bookkeeping) supports every tagged clause of its function
+                add(o["id"] if (o["tags"] or o["kind"] in ("requires", "vacuity")) else "%s/hints" % fpath, rendered)
             continue
         # 2. untagged ghost text of this function
         if in_ranges(L, f[0].get("ghost_ranges", [])):
@@ -281,13 +295,14 @@ def compute(tier):
 def run_witnesses(cdir):
     """build the replay crate against the current tree and run every witness scenario"""
     rdir = os.path.join(VERIF, "replay")
-    env = dict(os.environ, CARGO_NET_OFFLINE="true", VERIF_REPO=REPO, CARGO_TARGET_DIR=os.path.join(rdir, "target"))
+    tdir = os.path.join(CACHE, "replay_target") if os.environ.get("VERIF_CACHE") else os.path.join(rdir, "target")
+    env = dict(os.environ, CARGO_NET_OFFLINE="true", VERIF_REPO=REPO, CARGO_TARGET_DIR=tdir)
     try:
         b = subprocess.run(["cargo", "build", "--release", "--offline"], cwd=rdir, env=env, capture_output=True,
                            text=True, timeout=900)
         if b.returncode != 0:
             return {"error": "replay crate does not build: " + b.stderr[-600:]}
-        r = subprocess.run([os.path.join(rdir, "target/release/ppg2_replay")], capture_output=True, text=True,
+        r = subprocess.run([os.path.join(tdir, "release/ppg2_replay")], capture_output=True, text=True,
                            timeout=300)
         out = {}
         for line in r.stdout.split("\n"):
@@ -327,7 +342,7 @@ def main():
         sys.exit(2)
     claim = claims[pid]
     undecided = json.load(open(os.path.join(CONTRACTS, "undecided.json")))
-    evid_path = os.path.join(VERIF, "evidence", "%s.json" % pid)
+    evid_path = os.path.join(EVIDENCE, "%s.json" % pid)
     os.makedirs(os.path.dirname(evid_path), exist_ok=True)
     r = compute(tier)
 
@@ -434,7 +449,7 @@ def main():
         "source_sha256": meta["source_sha256"],
         "explanation": claim.get("explanation", ""),
     }
-    os.makedirs(os.path.join(VERIF, "replays"), exist_ok=True)
+    os.makedirs(REPLAYS, exist_ok=True)
     rc = 0
     hard_tool = []
     for t in r["tool_errors"]:
@@ -456,7 +471,7 @@ def main():
     for k in kf_lines:
         print("KNOWN-FINDING: property=%s %s" % (pid, k["what"]))
     for o in viol:
-        rp = os.path.join(VERIF, "replays", "%s-%s.json" % (pid, re.sub(r"[^A-Za-z0-9_.#-]+", "_", o["id"])))
+        rp = os.path.join(REPLAYS, "%s-%s.json" % (pid, re.sub(r"[^A-Za-z0-9_.#-]+", "_", o["id"])))
         f = frec[o["fn"]]
         wmap = json.load(open(os.path.join(CONTRACTS, "witness_map.json")))
         wit = [r.get("witnesses", {}).get(w) for w in wmap.get(o["id"], [])]
